@@ -25,3 +25,49 @@ Print Assumptions C12_reflexive.
 Theorem C12_transitive : forall c b a, contains_t b c = true -> contains_t a b = true -> contains_t a c = true.
 Proof. exact contains_trans. Qed.
 Print Assumptions C12_transitive.
+
+(* ---- the byte walker itself (ContainWalk.v: contains / contains_jsonb / array_contains / scalar_payload_eq, two
+   buffers, nothing decoded except number payloads, keys of `right` looked up in `left` with get_jentry_by_name, values
+   sliced out with index expressions, recursion on (sub-slice, sub-slice)): on the encodings of any two well-formed
+   documents every header, entry word, key and payload it reads is the one it means to read, no read fails, no slice
+   panics, the recursion fuel S (length right) is enough, and the answer is the @> of the two documents -- with the
+   numbers compared by value whatever their encoding. *)
+From JB Require Import Codec DispatchProofs Dispatch ContainWalk ContainWalkProofs.
+Theorem C12_contains_bytes : forall a b, wfb a = true -> wfb b = true -> top_ok a -> top_ok b ->
+  contains_w (enc a) (enc b) = Ok (contains_t a b).
+Proof. exact contains_w_enc. Qed.
+Print Assumptions C12_contains_bytes.
+
+(* the binary branch alone needs no bound on the top-level count *)
+Theorem C12_contains_jsonb_bytes : forall a b, wfb a = true -> wfb b = true ->
+  contains_b (enc a) (enc b) = Ok (contains_t a b).
+Proof. exact contains_b_enc. Qed.
+Print Assumptions C12_contains_jsonb_bytes.
+
+(* the walker and the decode-then-tree model agree on encodings; the tree function does not see the representation
+   change of a decode/encode round trip *)
+Theorem C12_contains_bytes_is_view : forall a b, wfb a = true -> wfb b = true -> top_ok a -> top_ok b ->
+  contains_w (enc a) (enc b) = contains_m (enc a) (enc b).
+Proof. exact contains_w_m_enc. Qed.
+Print Assumptions C12_contains_bytes_is_view.
+
+(* the recursion fuel of the model is enough for EVERY pair of buffers, valid or not: the fuel-exhausted outcome is
+   unreachable (each recursive call gets a slice of `right` that is at least 8 bytes shorter) *)
+Theorem C12_fuel_never_exhausted : forall l r, contains_jsonb_w (S (length r)) l r <> Err EFuel.
+Proof. exact contains_b_fuel. Qed.
+Print Assumptions C12_fuel_never_exhausted.
+
+(* not vacuous: a nested object/array with the number one as UInt64 1 on the left and as Float64 1.0 on the right
+   (different payload bytes), and a top-level array that contains a bare scalar *)
+Definition c12_left : value :=
+  VObj [([97], VArr [VNum (NUInt 1); VStr [120]; VObj [([107], VNum (NInt (-5))); ([122], VNull)]; VArr [VBool true; VNum (NUInt 300)]]);
+        ([98], VStr [104; 105])].
+Definition c12_right : value :=
+  VObj [([97], VArr [VArr [VNum (NFloat 4643985272004935680)]; VObj [([107], VNum (NFloat 13840687554816376832))]; VNum (NFloat 4607182418800017408)])].
+Example C12_bytes_example :
+  wfb c12_left = true /\ wfb c12_right = true /\
+  contains_w (enc c12_left) (enc c12_right) = Ok true /\ contains_t c12_left c12_right = true /\
+  contains_w (enc c12_right) (enc c12_left) = Ok false /\
+  contains_w (enc (VArr [VNum (NInt 7); VStr [97]])) (enc (VNum (NFloat 4619567317775286272))) = Ok true /\
+  contains_w (enc (VArr [VArr [VNum (NInt 7)]])) (enc (VNum (NInt 7))) = Ok false.
+Proof. vm_compute. repeat split; reflexivity. Qed.
